@@ -30,7 +30,10 @@ Proof.
   cbn [concat]. rewrite app_nil_r.
   unfold dagcbor_codec, cbor_family_codec. cbn [c_dec].
   rewrite (decode_encode SortRFC7049 (cbor_dopts true rt) v); auto.
-  rewrite sortv_rfc. do 2 f_equal. unfold lenN at 2. cbn. lia.
+  rewrite sortv_rfc.
+  replace (lenN (encb SortRFC7049 v) - lenN (@nil N)) with (lenN (encb SortRFC7049 v))
+    by (unfold lenN; cbn [length]; lia).
+  reflexivity.
 Qed.
 
 Section DagCborLinks.
